@@ -42,13 +42,50 @@ package deb
 //@   modifies [C11 C12] &info.Arch, &info.Contents, &info.Priority, &info.Maintainer
 //
 //@ import "archive/tar"
+//@ import "time"
 //@ import "bytes"
 //
+//@ spec func debItem(c *files.Content, pkgMTime time.Time) string {
+//@     switch c.Type {
+//@     case "ghost":
+//@         return ""
+//@     case "dir", "implicit dir":
+//@         return ufStr("tarHead", files.AsExplicitRelativePath(c.Destination), int64(c.FileInfo.Mode&0o7777), int64(0), byte('5'), "", c.FileInfo.Owner, c.FileInfo.Group, pkgMTime)
+//@     case "symlink":
+//@         return ufStr("tarHead", files.AsExplicitRelativePath(c.Destination), int64(c.FileInfo.Mode&0o7777), int64(0), byte('2'), c.Source, c.FileInfo.Owner, c.FileInfo.Group, pkgMTime)
+//@     }
+//@     return ufStr("tarHead", files.AsExplicitRelativePath(c.Destination), int64(c.FileInfo.Mode&0o7777), c.FileInfo.Size, byte('0'), "", c.FileInfo.Owner, c.FileInfo.Group, c.FileInfo.MTime) + fsContent(c.Source)
+//@ }
+//
+//@ spec func debPayload(cs files.Contents, pkgMTime time.Time, n int) string {
+//@     return foldStr(n, func(i int) string { return debItem(cs[i], pkgMTime) })
+//@ }
+//
+//@ spec func debEntryOK(c *files.Content) bool {
+//@     if c.Type == "debian changelog" { return false }
+//@     if c.Type == "dir" || c.Type == "implicit dir" { return c.FileInfo.Mode < 1<<18 || (1<<31 <= c.FileInfo.Mode && c.FileInfo.Mode < 1<<31 + 1<<18) }
+//@     if c.Type == "symlink" { return c.FileInfo.Mode < 1<<18 }
+//@     return c.FileInfo.Mode < 1<<18 && c.FileInfo.Size == int64(len(fsContent(c.Source)))
+//@ }
+//
+//@ spec func debEntriesOK(cs files.Contents) bool {
+//@     return forall(0, len(cs), func(i int) bool { return debEntryOK(cs[i]) })
+//@ }
+//
 //@ inline func createFilesInsideDataTar(info *nfpm.Info, tw *tar.Writer) (md5buf bytes.Buffer, instSize int64, err error)
-//@   loop 0
+//@   requires [C01] info != nil && tw != nil && files.SpecContentsNonNil(info.Contents) && !info.MTime.IsZero()
+//@   requires [C01] files.SpecPlanInputOK(info.Contents, true)
+//@   requires [C01] debEntriesOK(info.Contents)
+//@   requires !ghostFlag("failed") && !ghostFlag("clockRead") && !ghostFlag("envRead")
+//@   ensures [C01] payload-is-exactly-the-plan: implies(err == nil, ghostStr(tw, "tarManifest") == old(ghostStr(tw, "tarManifest")) + debPayload(info.Contents, info.MTime, len(info.Contents)))
+//@   loop 0 (iter int)
+//@     invariant [C01] payload-so-far: inlined() || ghostStr(tw, "tarManifest") == old(ghostStr(tw, "tarManifest")) + debPayload(info.Contents, info.MTime, iter)
+//@     invariant [C01] between-entries: inlined() || (ghostInt(tw, "tarRemaining") == 0 && !ghostBool(tw, "tarClosed") && ghostAny(tw, "werr") == nil)
+//@     invariant [C01] index-in-range: 0 <= iter && iter <= len(info.Contents)
 //@     invariant [C06] no-failure-so-far: !ghostFlag("failed")
 //@     invariant [C07] no-clock-so-far: implies(!old(info.MTime.IsZero()), !ghostFlag("clockRead"))
-//@     invariant [C07 C11 C12] plan-still-fresh: nfpm.SpecPlanOK(info.Contents, !old(info.MTime.IsZero()))
+//@     invariant [C07 C11 C12] plan-still-fresh: !inlined() || nfpm.SpecPlanOK(info.Contents, !old(info.MTime.IsZero()))
+//@     invariant [C01] plan-entries-complete: inlined() || files.SpecPlanInputOK(info.Contents, true)
 //
 //@ spec func confLine(c *files.Content) string {
 //@     switch c.Type {
@@ -222,7 +259,6 @@ package deb
 //
 //@ pure func writeControl$2(strs string) (result string)
 //
-//@ import "time"
 //
 //@ spec func ctlItem(name string, mode int64, body string, mtime time.Time) string {
 //@     return ufStr("tarHead", name, mode, int64(len(body)), byte('0'), "", "", "", mtime) + body
